@@ -285,9 +285,14 @@ def check_C06(ctx):
     m, impl, lines = run_k3(ctx, "K4 infer-to-convergence + node-level sweep + second infer", scs, ["c06_fixpoint", "c13_amount"])
     conv = sum(1 for o in impl[0] if not o.startswith("(-900") and sx.loads(o)[0][0] < 60)
     ctx.cov["converged_within_guard"] = conv
+    try:
+        import checks_fol
+        checks_fol.c06_fol_part(ctx)
+    except (ImportError, AttributeError):
+        pass
     ctx.cov["distribution"] = dist(meta)
     ctx.assumptions.append("C06_fixpoint_partial needs the last step to report exactly zero (grid-closed KBs); infer() stops at <= 1e-7 (D9, DESIGN.md section 10)")
-    ctx.assumptions.append("first-order / quantified knowledge bases: not in this theorem (propositional engine only)")
+    ctx.assumptions.append("first-order knowledge bases: the fixpoint/termination theorems are propositional; the first-order part (after the row-creation fix) is checked on the implementation against the model (fol_c06 monitor); quantifiers: see C11/C12")
     return ctx.finish("proof", pr, st, rule="K4: random propositional KBs (75% unit-weight, 25% weighted), consistent or free data; ops = infer(max_steps=60 guard), then upward and downward of EVERY non-leaf object, then infer again; "
                       "monitor: convergence within the guard, every later node call is a no-op, second infer = (1 step, 0); non-trivial = first infer moved a bound")
 
@@ -481,3 +486,40 @@ def check_C20(ctx):
 
 
 CHECKS.update({"C06": check_C06, "C07": check_C07, "C20": check_C20})
+
+
+# ====================================================================== C16 (propositional part)
+@monitor("c16_prop")
+def mon_c16_prop(sc, obs):
+    if whole_error(obs):
+        return None
+    k1, k2 = sc[6], sc[7]
+    sts = list(states_of(sc, obs))
+    if any(x[3] is None for x in sts):
+        return None
+    if sts[k1][4][0] >= 30 or sts[k2][4][0] >= 30:
+        return None
+    if sts[k1][3] != sts[k2][3]:
+        d = [(i, a, b) for i, (a, b) in enumerate(zip(sts[k1][3], sts[k2][3])) if a != b][0]
+        return (f"after reset_bounds(), infer() reproduces the bounds of the first run: object {d[0]} = {d[1]}", f"{d[2]}", None)
+    return None
+
+
+def c16_prop_part(ctx):
+    rng = ctx.rng("c16prop")
+    scs, metas = [], []
+    for _ in range(300 if ctx.quick else 4000):
+        kb = gen_prop.gen_kb(rng, weighted=rng.random() < 0.3, nforms=rng.choice([2, 3, 4, 5]))
+        roots = gen_prop.roots_of(rng, kb)
+        kb, roots = gen_prop.restrict(kb, roots)
+        mode = rng.choice(["consistent", "consistent", "free"])
+        data, hidden = gen_prop.gen_data(rng, kb, mode)
+        pre = [[9]] if rng.random() < 0.3 else []
+        ops = pre + [[5, -1, 30]]
+        k1 = len(ops) - 1
+        ops += gen_prop.gen_ops(rng, kb, roots, rng.choice([0, 2, 4])) + [[9], [7], [5, -1, 30]]
+        k2 = len(ops) - 1
+        scs.append([3, kb, roots, data, ops, hidden or [], k1, k2])
+        metas.append({"mode": mode, "hidden": hidden, "nobj": len(kb), "kinds": sorted(set(o[0] for o in kb))})
+    run_k3(ctx, "K4 propositional run 1 / further calls / reset_bounds / run 2", scs, ["c16_prop"])
+    ctx.cov["prop_distribution"] = dist(metas)
